@@ -343,7 +343,8 @@ package mqtt
 //@        evIndex("(*BaseClient).write", 0) < evIndex("select", 0)
 //@   ensures[C07,C13] registered_first: evCount("(*BaseClient).write") == 1 ==> evCount("store:signaller.chPingResp") == 1 &&
 //@        evIndex("store:signaller.chPingResp", 0) < evIndex("(*BaseClient).write", 0) && evArg[*signaller]("store:signaller.chPingResp", 0, 0) == sig0 &&
-//@        (evCount("select") == 1 ==> evArg[chan *pktPingResp]("store:signaller.chPingResp", 0, 1) == evArg[chan *pktPingResp]("select", 0, 2))
+//@        (evCount("select") == 1 ==> evArg[chan *pktPingResp]("store:signaller.chPingResp", 0, 1) == evArg[chan *pktPingResp]("select", 0, 2)) &&
+//@        chanCap(evArg[chan *pktPingResp]("store:signaller.chPingResp", 0, 1)) >= 1
 //@   ensures[C11] waitset: evCount("select") == 1 ==> evRet[int]("select", 0, 0) >= 0 && evArg[chan struct{}]("select", 0, 0) == c.connClosed &&
 //@        evArg[<-chan struct{}]("select", 0, 1) == evRet[<-chan struct{}]("context.Context.Done", 0, 0) && evArg[context.Context]("context.Context.Done", 0, 0) == ctx
 //@   ensures[C11] no_bare_block: evCount("recv") == 0 && evCount("send") == 0
@@ -398,7 +399,8 @@ package mqtt
 //@   ensures[C07] waiter: evCount("select") == 1 ==> fresh(evArg[chan *pktConnAck]("select", 0, 2)) && evIndex("(*BaseClient).write", 0) < evIndex("select", 0)
 //@   ensures[C07] registered_first: evCount("(*BaseClient).write") == 1 ==> evCount("store:signaller.chConnAck") == 1 &&
 //@        evIndex("store:signaller.chConnAck", 0) < evIndex("(*BaseClient).write", 0) && evArg[*signaller]("store:signaller.chConnAck", 0, 0) == c.sig &&
-//@        (evCount("select") == 1 ==> evArg[chan *pktConnAck]("store:signaller.chConnAck", 0, 1) == evArg[chan *pktConnAck]("select", 0, 2))
+//@        (evCount("select") == 1 ==> evArg[chan *pktConnAck]("store:signaller.chConnAck", 0, 1) == evArg[chan *pktConnAck]("select", 0, 2)) &&
+//@        chanCap(evArg[chan *pktConnAck]("store:signaller.chConnAck", 0, 1)) >= 1
 //@   ensures[C11] waitset: evCount("select") == 1 ==> evRet[int]("select", 0, 0) >= 0 && evArg[chan struct{}]("select", 0, 0) == c.connClosed &&
 //@        evArg[<-chan struct{}]("select", 0, 1) == evRet[<-chan struct{}]("context.Context.Done", 0, 0) && evArg[context.Context]("context.Context.Done", 0, 0) == ctx
 //@   ensures[C11] no_bare_block: evCount("recv") == 0 && evCount("send") == 0
